@@ -186,15 +186,7 @@ func ruleElectionMessageGuard(e *Engine, r *Report) {
 			if fnPkg(fn) != raftPkg || !e.IsLive(fn) {
 				continue
 			}
-			forEachInstr(fn, func(in ssa.Instruction) {
-				st, ok := in.(*ssa.Store)
-				if !ok {
-					return
-				}
-				f, _, ok := fieldOfAddr(st.Addr)
-				if !ok || f != msgType || !constV(electionC)(st.Val) {
-					return
-				}
+			for _, in := range e.msgTypeSites(fn, msgType, electionC) {
 				n++
 				reqs := []Req{reqBool("selfRemoved() is false", e.callV(selfRemoved), false)}
 				for _, pn := range []string{"isNonVoting", "isWitness"} {
@@ -203,7 +195,7 @@ func ruleElectionMessageGuard(e *Engine, r *Report) {
 					}
 				}
 				r.guard("GD-removed-no-campaign", "Election message built in "+fname(fn), in, reqs...)
-			})
+			}
 		}
 		r.floor("GD-removed-no-campaign", n, 1)
 	}
@@ -219,16 +211,44 @@ func ruleElectionMessageGuard(e *Engine, r *Report) {
 func ruleInMemEntriesFresh(e *Engine, r *Report) {
 	entries := r.needField("internal/raft", "inMemory", "entries")
 	marker := r.needField("internal/raft", "inMemory", "markerIndex")
-	fresh := r.need("(*internal/raft.inMemory).newEntrySlice")
-	if entries == nil || marker == nil || fresh == nil {
+	// the allocator is recognised by role, the name only sharpens the report: a function of the
+	// package whose every returned slice is freshly allocated (make / append onto make)
+	fresh := r.helper("(*internal/raft.inMemory).newEntrySlice")
+	if entries == nil || marker == nil {
 		return
+	}
+	allocates := func(g *ssa.Function) bool {
+		if g == nil || len(g.Blocks) == 0 || g.Signature.Results().Len() != 1 {
+			return false
+		}
+		if _, isSl := g.Signature.Results().At(0).Type().Underlying().(*types.Slice); !isSl {
+			return false
+		}
+		okAll, n := true, 0
+		forEachInstr(g, func(in ssa.Instruction) {
+			if ret, ok := in.(*ssa.Return); ok && len(ret.Results) == 1 {
+				n++
+				if !isFreshSliceValue(retOperand(ret, 0), 0) {
+					okAll = false
+				}
+			}
+		})
+		return okAll && n > 0
+	}
+	isAllocCall := func(v ssa.Value) bool {
+		c, ok := v.(*ssa.Call)
+		if !ok {
+			return false
+		}
+		g := c.Call.StaticCallee()
+		return g != nil && fnPkg(g) == e.pkgTypes("internal/raft") && allocates(g)
 	}
 	var derivesFresh func(v ssa.Value, d int) bool
 	derivesFresh = func(v ssa.Value, d int) bool {
 		if d > 4 {
 			return false
 		}
-		if e.callV(fresh)(v) {
+		if (fresh != nil && e.callV(fresh)(v) && allocates(fresh)) || isAllocCall(v) {
 			return true
 		}
 		if c, ok := v.(*ssa.Call); ok {
@@ -264,14 +284,16 @@ func ruleInMemEntriesFresh(e *Engine, r *Report) {
 	// the function the rule trusts to hand out a fresh copy does allocate: every
 	// slice it returns is make()/append onto make(), never recycled memory that
 	// earlier hand-outs (entries to save / to apply / Replicate messages) alias
-	forEachInstr(fresh, func(in ssa.Instruction) {
-		ret, ok := in.(*ssa.Return)
-		if !ok || len(ret.Results) == 0 {
-			return
-		}
-		r.check(isFreshSliceValue(retOperand(ret, 0), 0), "OWN-inmem-entries", "newEntrySlice returns freshly allocated memory", e.ipos(in),
-			"make() or append onto make()", "newEntrySlice can return a slice that is not freshly allocated ("+e.describeValue(retOperand(ret, 0))+"): slices handed out earlier (entries to save, to apply, in Replicate messages) share that memory and are overwritten")
-	})
+	if fresh != nil {
+		forEachInstr(fresh, func(in ssa.Instruction) {
+			ret, ok := in.(*ssa.Return)
+			if !ok || len(ret.Results) == 0 {
+				return
+			}
+			r.check(isFreshSliceValue(retOperand(ret, 0), 0), "OWN-inmem-entries", "newEntrySlice returns freshly allocated memory", e.ipos(in),
+				"make() or append onto make()", "newEntrySlice can return a slice that is not freshly allocated ("+e.describeValue(retOperand(ret, 0))+"): slices handed out earlier (entries to save, to apply, in Replicate messages) share that memory and are overwritten")
+		})
+	}
 	n := 0
 	for _, w := range e.FieldWrites(entries) {
 		if w.Kind != "store" {
@@ -2145,7 +2167,10 @@ func ruleAppendSetsRange(e *Engine, r *Report) {
 		return
 	}
 	isSR := e.throughHelpers(func(c ssa.CallInstruction) bool { return e.CallsTo(c, sr) })
-	var ents VM = func(v ssa.Value) bool { p, ok := stripConv(v).(*ssa.Parameter); return ok && p.Parent() == ap && p.Name() != "lr" }
+	var ents VM = func(v ssa.Value) bool {
+		p, ok := stripConv(v).(*ssa.Parameter)
+		return ok && p.Parent() == ap && p.Name() != "lr"
+	}
 	res := e.pathUnless(ap, nil, func(in ssa.Instruction) bool { return e.isSuccessReturn(in) }, isSR,
 		reqAny("no entries", reqCmp("", "==", lenOfV(ents), intConstV(0)), reqCmp("", "<=", lenOfV(ents), intConstV(0))))
 	var w []string
